@@ -533,10 +533,19 @@ def impl_reallib(kit, rl, cs):
     return r or read_result(m, rl.pid)
 
 
+_WARM = {}
+
+
 def impl_generate(plain, rl, cs):
-    """The unmodified package end to end (doubles)."""
-    with quiet():
-        m = plain.UWG.from_param_file(PARAM, epw_path=EPW)
+    """The unmodified package end to end (doubles). Cases without custom vectors are run on ONE
+    long-lived UWG object that has already been generated with the previous cases' stock, zone and
+    overrides (generate() must forget them): a multi-step history, not a fresh object per case."""
+    m = _WARM.get('m') if not cs['customs'] else None
+    if m is None:
+        with quiet():
+            m = plain.UWG.from_param_file(PARAM, epw_path=EPW)
+        if not cs['customs']:
+            _WARM['m'] = m
     try:
         m.bld = [(t, e, float(f)) for t, e, f in cs['bld']]
     except AssertionError:
@@ -556,6 +565,7 @@ def impl_generate(plain, rl, cs):
         with quiet():
             m.generate()
     except Exception as e:  # noqa: BLE001
+        _WARM.pop('m', None)
         return {'err': err_class(e), 'msg': str(e)[:200]}
     return read_result(m, rl.pid)
 
@@ -856,7 +866,16 @@ class Session(object):
     def tie_generate(self, cases):
         chk, rl = self.chk, self.rl
         pairs, tags = [(rl.line, 'ok lib rows=%d' % rl.spec['nt'])], {}
-        for cs in cases:
+        seq = []
+        for i, cs in enumerate(cases):
+            seq.append(cs)
+            if i % 4 == 1 and not cs['customs'] and any(v is not None for v in cs['ov'].values()):
+                # the same stock again with every override unset, on the same long-lived object:
+                # an unset override must leave the reference values untouched
+                clone = dict(cs)
+                clone['ov'] = {k: None for k in cs['ov']}
+                seq.append(clone)
+        for cs in seq:
             cs = dict(cs)
             cs['tie'] = 'C'
             res = impl_generate(self.plain, rl, cs)
@@ -868,7 +887,8 @@ class Session(object):
             tags[line] = classify_case(cs, res)
         chk.correspond(
             'generate()~generateBEM(shipped library)', 'C07', pairs,
-            rule='unmodified package: from_param_file + setters + generate() (reload, customise with '
+            rule='unmodified package: setters + generate() on ONE long-lived object re-generated case after case '
+                 '(fresh object only for cases with custom vectors): (reload, customise with '
                  'deep copies, read EPW, select) for every zone, dyadic fractions and overrides as '
                  'doubles, vs Lean generateBEM: (type, era, object identity via bldtype/builtera/'
                  'zonetype, fraction, six carried attributes) of BEM in order, exact values of the '
